@@ -138,6 +138,11 @@ def run(ctx):
         base_after = l3gen.canon_snapshot(ws.snapshot(d, skip=("patches",)))
         ws.cleanup(d)
         positions = output_calls(calls, d)
+        if cfg["threads"] > 1:
+            # strace counts `when=` per thread: the n-th open of a path in the process is not the n-th in the thread
+            # that happens to save the file, so with several threads only calls that are the first of their kind on
+            # their path in the whole process can be targeted (reject, backup opens; unlink; first mkdir; writes)
+            positions = [p_ for p_ in positions if p_[2] == 1]
         total_pos += len(positions)
         hist["output calls per run: %d" % min(len(positions) // 5 * 5, 40)] += 1
         # model: every fault position
@@ -161,7 +166,8 @@ def run(ctx):
             probs = check_outcome(rc, out, before, after, call, path, what)
             if rc0 == 0 and after == base_after and rc == 0:
                 probs.append("the fault had no visible effect and the push reports success")
-            if single and call in ("openat", "unlink", "mkdir") and not l3gen.model_err(m0) and mf:
+            # (create_dir_all is one atomic operation of the model but several mkdir calls: not compared exactly)
+            if single and call in ("openat", "unlink") and not l3gen.model_err(m0) and mf:
                 if after not in model_trees:
                     probs.append("tree after the fault on %s(%s) is none of the %d trees the model leaves under its fault positions" % (call, path, len(model_trees)))
                 hist["tree matched a model fault position"] += 1
